@@ -7,7 +7,7 @@
    (3) witnesses on the model's own creation (exec of create_save_failed): ensure_default's failed creation, the retry
        as built, the retry with the same id. *)
 From RipV Require Import Base.Prelude Model.Frames Model.Log Model.ContStore Model.C02Decide Model.SeqCreate
-  Model.ContInv Proofs.LogProofs Proofs.ContStoreProofs Proofs.C02DecideProofs.
+  Model.ContInv Proofs.LogProofs Proofs.ContStoreProofs Proofs.ContOrderProofs Proofs.C02DecideProofs.
 
 (* ---------- (1) ---------- *)
 Theorem second_frame_same_number_invalid (l : log) (f f' : frame) :
@@ -258,3 +258,33 @@ Proof.
     rewrite (N.eqb_refl (d_ws d)). reflexivity.
   - split; [|exact X]. intros file mem. rewrite Hws in R2. apply R2.
 Qed.
+
+(* ---------- (5) the cut programs are well-formed: the schedule theorems cover them ---------- *)
+Lemma fail_save_create ar : fail_save (create_prog ar) = create_save_failed ar.
+Proof. reflexivity. Qed.
+Lemma fail_save_lineage t a1 a2 : fail_save (lineage_prog t a1 a2) = create_save_failed a1.
+Proof. reflexivity. Qed.
+
+Theorem failed_save_skeletons_wf ar t a1 a2 c :
+  wf_prog (fail_save (create_prog ar)) = true
+  /\ wf_prog (MTarget c :: MRead :: fail_save (lineage_prog t a1 a2)) = true.
+Proof. split; reflexivity. Qed.
+
+(* two authorities' worth of actors on the empty store: one whose first ensure_default cannot save the index and who then
+   posts to the newest listed thread, one creating a thread and posting to it, one posting to the newest listed thread *)
+Definition w_sf_actors : list (list mstep * N) :=
+  [(create_save_failed [0] ++ MPickNewest :: locked_append EContinuityMessageAppended [], 0);
+   (create_prog [0] ++ MPickNewest :: locked_append EContinuityMessageAppended [], 0);
+   (MPickNewest :: locked_append EContinuityRunSpawned [], 0)].
+(* actor 1 tries to lock inside actor 0's failed creation (blocked); actor 2 looks for the newest listed thread before the index insert (none: its call ends); 4 frames *)
+Definition w_sf_sched : list N := [0; 0; 1; 0; 1; 0; 0; 2; 0; 0] ++ repeat 0 10 ++ repeat 1 18 ++ repeat 2 10.
+
+Lemma w_sf_hyps : SInv empty_state /\ progs_wf w_sf_actors /\ sess_fresh empty_state w_sf_actors /\ sess_distinct w_sf_actors.
+Proof.
+  split; [exact empty_sinv|]. split; [repeat constructor|]. split; [repeat constructor; discriminate|].
+  cbn. repeat split; try (intros H; discriminate H); repeat constructor.
+Qed.
+Lemma w_sf_log :
+  validate (s_log (run w_sf_sched (spawn w_sf_actors empty_state))) = true
+  /\ nlen (s_log (run w_sf_sched (spawn w_sf_actors empty_state))) = 4.
+Proof. split; vm_compute; reflexivity. Qed.
